@@ -295,6 +295,8 @@ func (x *Exec) zero(t types.Type) Value {
 	switch u := t.Underlying().(type) {
 	case *types.Basic:
 		switch {
+		case u.Kind() == types.Invalid:
+			return x.tc.False
 		case u.Info()&types.IsBoolean != 0:
 			return x.tc.False
 		case u.Info()&types.IsString != 0:
